@@ -24,7 +24,7 @@ import (
 // (KNOWN_FINDINGS.jsonl). They run before the generated cases on every check.
 
 func newJobctlSc(c *Ctx, mod func(j *execution.Job)) *jobctlWorld {
-	w := &jobctlWorld{c: c, rng: c.Rng, podsCreated: map[string]int64{}, foreign: map[string]bool{}, foreignRec: map[string]bool{}, ownSucceeded: map[string]bool{}}
+	w := newJobctlWorld(c, c.Rng)
 	w.ctx = sim.NewContext()
 	w.clk = fakeclock.NewFakeClock(sim.VirtualBase.Add(5000 * time.Second))
 	ktime.Clock = w.clk
@@ -98,6 +98,55 @@ func (w *jobctlWorld) setKill(at int64) {
 	}
 	w.c.Emit(fmt.Sprintf("jc.kill %d", at), w.state())
 	w.monitorJobVersion()
+}
+
+// setPodStatus: an external writer (the kubelet) replaces the pod's status; emits the jc.pod op.
+func (w *jobctlWorld) setPodStatus(name string, fn func(pp *corev1.Pod)) {
+	w.api.Mutate("pods", "ns/"+name, func(o runtime.Object) { fn(o.(*corev1.Pod)) })
+	w.c.Emit(fmt.Sprintf("jc.pod %s %s", name, podDigest(w.apiPod(name))), w.state())
+}
+
+// kubeletLeaveTerminal (scenarios only; OUTSIDE E-PodTerminalImmutable): the pod status flaps — a
+// pod that was reported Succeeded / Failed is reported Running again (C11's quantifier names
+// "flapping pod status"; the code's own comment in GetTaskRef blames the PodStatus the kubelet
+// generates).  The generated histories never do this.
+func (w *jobctlWorld) kubeletLeaveTerminal(name string) {
+	now := metav1.NewTime(time.Unix(w.clk.Now().Unix(), 0))
+	w.setPodStatus(name, func(pp *corev1.Pod) {
+		pp.Status.Phase = corev1.PodRunning
+		pp.Status.ContainerStatuses = []corev1.ContainerStatus{{Name: "c", State: corev1.ContainerState{Running: &corev1.ContainerStateRunning{StartedAt: now}}}}
+	})
+	w.c.Count("jc.envelope.pod-left-terminal-phase")
+	w.c.Count("jc.kubelet.flap-running")
+}
+
+// kubeletCrashLoop (scenarios only): restartPolicy OnFailure — the container of a Running pod exits
+// with an error and waits to be restarted (CrashLoopBackOff).  The pod phase stays Running; the
+// container's CURRENT state is Waiting, its start and exit times are only under
+// LastTerminationState.  Inside the kubelet contract (the phase does not move back).
+func (w *jobctlWorld) kubeletCrashLoop(name string) {
+	now := metav1.NewTime(time.Unix(w.clk.Now().Unix(), 0))
+	w.setPodStatus(name, func(pp *corev1.Pod) {
+		started := now
+		for _, cs := range pp.Status.ContainerStatuses {
+			if cs.State.Running != nil {
+				started = cs.State.Running.StartedAt
+			}
+		}
+		pp.Status.ContainerStatuses = []corev1.ContainerStatus{{Name: "c", RestartCount: 1,
+			State:                corev1.ContainerState{Waiting: &corev1.ContainerStateWaiting{Reason: "CrashLoopBackOff", Message: "back-off restarting failed container"}},
+			LastTerminationState: corev1.ContainerState{Terminated: &corev1.ContainerStateTerminated{StartedAt: started, FinishedAt: now, ExitCode: 1, Reason: "Error"}}}}
+	})
+	w.c.Count("jc.envelope.container-waiting-for-restart")
+	w.c.Count("jc.kubelet.crashloop")
+}
+
+func (w *jobctlWorld) onlyPodName() string {
+	ps := w.ownedPods()
+	if len(ps) != 1 {
+		return ""
+	}
+	return ps[0].Name
 }
 
 func runJobctlScenarios(c *Ctx) {
@@ -282,6 +331,55 @@ func runJobctlScenarios(c *Ctx) {
 		c.Nontrivial()
 	})
 
+	// F19, through a stale POD cache instead of a stale Job cache (known finding; found by a
+	// thorough-tier sweep, generated case 5344 at seed 1; outside E-NoStaleCopyOnCreate: generated
+	// histories that walk into it are tagged at pass start and counted): a task NAME identifies
+	// different pod incarnations and the refs carry no UID.  The first pass creates job-<h>-0
+	// (incarnation 1), its status write conflicts: unrecorded.  Incarnation 1 ends Failed/OOMKilled,
+	// the pod cache catches up with it, then the object vanishes (delete event undelivered).  A
+	// later pass — status.tasks still empty, the name free on the server — creates job-<h>-0 again
+	// (incarnation 2) and records it.  The pod cache still serves incarnation 1: the next pass records
+	// the ref Terminated/Failed/OOMKilled with incarnation 1's timestamps while incarnation 2 is
+	// Running, and keeps that outcome (fix 6ab84c2) when incarnation 2 succeeds: a retry job-<h>-1 is
+	// created for an index whose live task has succeeded.
+	c.RunScenario("f19-stale-pod-cache-serves-previous-incarnation", func() {
+		w := newJobctlSc(c, func(j *execution.Job) {
+			j.Spec.Template.MaxAttempts = i64p(3)
+			j.Spec.Template.RetryDelaySeconds = i64p(60)
+		})
+		w.flush()
+		w.faults = []string{"", sim.FaultConflict} // pod create ok, status update conflicts
+		c.Emit("jc.fault -", w.state())
+		c.Emit("jc.fault "+sim.FaultConflict, w.state())
+		w.work() // incarnation 1 of job-<h>-0: created, unrecorded
+		name := w.onlyPodName()
+		if name == "" {
+			return
+		}
+		three, zero := 3, 0
+		w.forceKind = &three
+		w.kubelet(w.apiPod(name), 3) // incarnation 1: Failed / OOMKilled
+		w.flush()                    // the pod cache holds incarnation 1, finished
+		w.kubelet(w.apiPod(name), 6) // the object vanishes; its delete event stays undelivered
+		w.adv(100)
+		w.work() // status.tasks is empty and the name is free: incarnation 2 is created and recorded
+		w.deliver("jobs")
+		if p := w.apiPod(name); p != nil {
+			w.kubelet(p, 1) // incarnation 2 runs (event undelivered)
+		}
+		w.work() // the pod cache serves incarnation 1: the ref is recorded Terminated/Failed/OOMKilled
+		w.flush()
+		if p := w.apiPod(name); p != nil {
+			w.forceKind = &zero
+			w.kubelet(p, 3) // incarnation 2 succeeds
+		}
+		w.flush()
+		w.work() // the recorded outcome is kept: a retry is created for the succeeded index
+		w.flush()
+		w.settle(3)
+		c.Nontrivial()
+	})
+
 	// F25 (known finding, same root cause as F19: the controller keeps no record of a create whose
 	// status write failed and whose pod event has not arrived).  Lean witness
 	// C12Hist.killed_reopened_witness, same history: the user's kill races a pass that still works
@@ -324,6 +422,7 @@ func runJobctlScenarios(c *Ctx) {
 		w.work() // the unrecorded task is adopted and swept: the Job is un-finished (Killing)
 		w.flush()
 		w.settle(4)
+		w.judgeFinishedNoLiveTask() // every event delivered, passes run, 4 minutes gone: the re-opened Job has stopped the task
 		w.runTimersOut()
 		w.finalMonitors()
 		c.Nontrivial()
@@ -367,8 +466,315 @@ func runJobctlScenarios(c *Ctx) {
 		w.work()          // AnySuccessful satisfied, no recorded task alive: Finished/Success while the retry runs
 		w.flush()
 		w.settle(4)
+		w.judgeFinishedNoLiveTask() // every event delivered, passes run, 4 minutes gone: the re-opened Job has stopped the task
 		w.runTimersOut()
 		w.finalMonitors()
+		c.Nontrivial()
+	})
+
+	// F29 (known finding).  C11: "unless the user edits or deletes it its recorded result and finish
+	// time never change", over histories that include "flapping pod status".  maxAttempts 1.  The pod
+	// is reported Failed at t1: the Job is Finished/Failed(t1).  The pod status flaps: Running again —
+	// GetTaskRef keeps the finish time t1 but takes Status from the pod (state Running; this is pinned
+	// by the upstream test "existing task transitioned from finished back to running").  Then the pod
+	// is reported Succeeded at t2: the guard "keep the final status that was recorded" (repair of F17)
+	// looks at existing.Status.State, which the flap overwrote with Running, so it does not apply: the
+	// ref becomes Terminated/Succeeded(t2) and the finished Job is rewritten Finished/Success(t2).
+	// Outside E-PodTerminalImmutable (the generated histories never leave a terminal phase).
+	c.RunScenario("f29-flap-after-finish-changes-result", func() {
+		w := newJobctlSc(c, nil) // maxAttempts 1
+		w.keepMonitors = true
+		w.flush()
+		w.work() // creates the pod, records it
+		w.flush()
+		name := w.onlyPodName()
+		if name == "" {
+			return
+		}
+		w.kubelet(w.apiPod(name), 1) // running
+		w.flush()
+		w.work()
+		w.flush()
+		w.adv(10)
+		two, zero := 2, 0
+		w.forceKind = &two
+		w.kubelet(w.apiPod(name), 3) // Failed at t1
+		w.flush()
+		w.work() // Finished / Failed (t1)
+		w.flush()
+		j := w.apiJob()
+		if j == nil || j.Status.Condition.Finished == nil || j.Status.Condition.Finished.Result != execution.JobResultFailed {
+			c.Violate("C11", "scenario-f29-shape", "the replay did not reach Finished/Failed")
+			return
+		}
+		w.adv(5)
+		w.kubeletLeaveTerminal(name) // the pod status flaps: Running again
+		w.flush()
+		w.work() // the ref keeps finish t1 and takes state Running from the pod; the Job stays Finished/Failed(t1)
+		w.flush()
+		w.adv(5)
+		w.forceKind = &zero
+		w.kubelet(w.apiPod(name), 3) // Succeeded at t2
+		w.flush()
+		w.work() // Finished / Success (t2): result and finish time of a finished Job changed
+		w.flush()
+		w.settle(2)
+		w.finalMonitors()
+		c.Nontrivial()
+	})
+
+	// F29, second history (the other direction; NOT removed by a guard in GetTaskRef): the pod is
+	// reported Succeeded, the Job is Finished/Success; the pod status flaps to Running: the ref keeps
+	// its finish time but takes Status (state Running, no result) from the pod — exactly what the
+	// upstream test "existing task transitioned from finished back to running" pins — and the
+	// aggregation (getIndexStatus: finished refs counted by FinishTimestamp, success read from
+	// Status.Result) now sees a finished attempt without success: with maxAttempts 1 the finished Job is
+	// rewritten Finished/Failed at the flap itself.
+	c.RunScenario("f29b-flap-after-success-fails-job", func() {
+		w := newJobctlSc(c, nil) // maxAttempts 1
+		w.keepMonitors = true
+		w.flush()
+		w.work() // creates the pod, records it
+		w.flush()
+		name := w.onlyPodName()
+		if name == "" {
+			return
+		}
+		w.kubelet(w.apiPod(name), 1) // running
+		w.flush()
+		w.work()
+		w.flush()
+		w.adv(10)
+		zero := 0
+		w.forceKind = &zero
+		w.kubelet(w.apiPod(name), 3) // Succeeded at t1
+		w.flush()
+		w.work() // Finished / Success (t1)
+		w.flush()
+		j := w.apiJob()
+		if j == nil || j.Status.Condition.Finished == nil || j.Status.Condition.Finished.Result != execution.JobResultSuccess {
+			c.Violate("C11", "scenario-f29b-shape", "the replay did not reach Finished/Success")
+			return
+		}
+		w.adv(5)
+		w.kubeletLeaveTerminal(name) // the pod status flaps: Running again
+		w.flush()
+		w.work() // Finished / Failed: the result of a finished Job changed
+		w.flush()
+		w.settle(2)
+		w.finalMonitors()
+		c.Nontrivial()
+	})
+
+	// F30 (known finding).  C08: "a retry is never created before retryDelaySeconds have elapsed
+	// since the previous attempt finished".  A pod that fails WITHOUT container termination info
+	// (kubelet eviction, node lost, DeadlineExceeded without activeDeadlineSeconds):
+	// PodTask.GetFinishTimestamp falls back to status.startTime (else the creation time), so the finish
+	// time recorded for the attempt is the instant it STARTED.  retryDelaySeconds 600, the pod runs for
+	// an hour and is evicted: the retry is created 2 s after the attempt really ended.  Inside the
+	// kubelet contract; the ground truth is the instant at which the simulated kubelet ended the pod.
+	c.RunScenario("f30-evicted-task-retry-ignores-delay", func() {
+		w := newJobctlSc(c, func(j *execution.Job) {
+			j.Spec.Template.MaxAttempts = i64p(2)
+			j.Spec.Template.RetryDelaySeconds = i64p(600)
+		})
+		w.keepMonitors = true
+		w.flush()
+		w.work() // creates job-<h>-0, records it
+		w.flush()
+		name := w.onlyPodName()
+		if name == "" {
+			return
+		}
+		w.kubelet(w.apiPod(name), 1) // running: status.startTime = now
+		w.flush()
+		w.work()
+		w.flush()
+		w.adv(3600)
+		four := 4
+		w.forceKind = &four
+		w.kubelet(w.apiPod(name), 3) // evicted: phase Failed, no container status; the attempt ends NOW
+		w.flush()
+		w.work() // the failure is recorded, with the finish time = the pod's START time
+		w.flush()
+		w.adv(2)
+		w.work() // (a timer for start + 600 s is long due) the retry is created 2 s after the eviction
+		w.flush()
+		if len(w.ownedPods()) == 2 {
+			c.Count("jc.observed.retry-created-right-after-eviction")
+		}
+		w.adv(600) // the retry delay, counted from the eviction, has certainly passed now
+		w.drain()
+		if n := len(w.ownedPods()); n != 2 {
+			c.Violate("C08", "scenario-f30-shape", "the retry was not created even 602 s after the eviction (%d pods)", n)
+		}
+		w.settle(2)
+		c.Nontrivial()
+	})
+
+	// F31 (known finding).  C09: "every task the Job ever created stays listed in its status".
+	// Parallel Job over two indexes; the task name of index 1 is taken by a foreign pod.  Pass 1 creates
+	// the pod of index 0; index 1 answers AlreadyExists, the admission-error annotation is set in
+	// memory; handleKillJob runs in the same pass (shouldKillJob: the annotation) and deletes the pod
+	// of index 0 — no kubelet has acknowledged it, so the API server removes it at once; Update
+	// (annotation) succeeds; UpdateStatus is sent with the SAME resourceVersion the pass read, which
+	// Update has just made stale: Conflict, with no fault injected (SyncOne discards what Update
+	// returned; whenever a pass changes both metadata and status the status write conflicts).  The
+	// later passes see status.tasks == [] and no pod: Finished/AdmissionError with 0 tasks — a task
+	// was created, deleted and never listed.  (f11 is the same history with the deleted pod lingering:
+	// it is then adopted from the pod cache by the next pass.)
+	c.RunScenario("f31-created-task-deleted-and-never-listed", func() {
+		w := newJobctlSc(c, func(j *execution.Job) { j.Spec.Template.Parallelism = &execution.ParallelismSpec{WithCount: i64p(2)} })
+		w.keepMonitors = true
+		w.promptUnscheduled = true
+		if len(w.indexHashes) != 2 {
+			return
+		}
+		w.addForeign("job-" + w.indexHashes[1] + "-0")
+		w.flush()
+		w.work() // create index 0: ok; create index 1: exists; delete index 0; Update ok; UpdateStatus conflict
+		created, conflict := 0, false
+		for _, cl := range w.api.Calls {
+			if cl.Verb == "create" && cl.Resource == "pods" && cl.Result == "ok" {
+				created++
+			}
+			if cl.Verb == "update" && cl.Subresource == "status" && cl.Result == "conflict" {
+				conflict = true
+			}
+		}
+		if created != 1 || len(w.ownedPods()) != 0 {
+			c.Violate("C09", "scenario-f31-shape", "pass 1: %d pods created, %d pods of the Job left", created, len(w.ownedPods()))
+		}
+		if conflict {
+			c.Count("jc.observed.status-write-conflicts-with-own-update")
+		}
+		w.flush()
+		for i := 0; i < 4; i++ {
+			w.work()
+			w.flush()
+		}
+		w.settle(2)
+		w.finalMonitors() // (before the TTL timer of the finished Job is run out: the Job is judged while it exists)
+		c.Nontrivial()
+	})
+
+	// F32 (known finding).  C12: the pending timeout applies to "a task that has not begun running".
+	// restartPolicy OnFailure (admitted by validation: only Always is refused).  The task runs, the
+	// running timestamp is recorded in status.tasks; the container exits with an error and waits to
+	// be restarted (CrashLoopBackOff): its current state is Waiting, the start time is only under
+	// LastTerminationState.  handlePendingTasks reads the running timestamp from the LIVE pod
+	// (task.GetTaskRef(), not the recorded ref) and GetContainerStartTime only looks at
+	// State.Running / State.Terminated: the task looks as if it had never started, and any pass after
+	// creation + pendingTimeout deletes it as "PendingTimeout".
+	c.RunScenario("f32-crashloop-task-reaped-as-pending", func() {
+		w := newJobctlSc(c, func(j *execution.Job) {
+			j.Spec.Template.TaskTemplate.Pod.Spec.RestartPolicy = corev1.RestartPolicyOnFailure
+		})
+		w.keepMonitors = true
+		w.flush()
+		w.work() // creates the pod, records it
+		w.flush()
+		name := w.onlyPodName()
+		if name == "" {
+			return
+		}
+		w.adv(5)
+		w.kubelet(w.apiPod(name), 1) // the task begins running
+		w.flush()
+		w.work() // runningTimestamp recorded
+		w.flush()
+		if j := w.apiJob(); j == nil || len(j.Status.Tasks) != 1 || j.Status.Tasks[0].RunningTimestamp.IsZero() {
+			c.Violate("C12", "scenario-f32-shape", "the running timestamp was not recorded")
+			return
+		}
+		w.adv(1000)              // beyond creation + pending timeout (900 s, controller default)
+		w.kubeletCrashLoop(name) // the container failed and waits for its restart
+		w.flush()
+		w.work() // reaped: delete + DeletedStatus Killed/PendingTimeout
+		w.flush()
+		w.settle(4)
+		w.runTimersOut()
+		w.finalMonitors()
+		c.Nontrivial()
+	})
+
+	// F32, second history: the container starts and fails BETWEEN two passes, so no pass ever saw it
+	// Running and no running timestamp is recorded either; the only trace of the start is
+	// LastTerminationState.Terminated.StartedAt, which GetContainerStartTime does not read.
+	c.RunScenario("f32b-crashloop-before-first-observation", func() {
+		w := newJobctlSc(c, func(j *execution.Job) {
+			j.Spec.Template.TaskTemplate.Pod.Spec.RestartPolicy = corev1.RestartPolicyOnFailure
+		})
+		w.keepMonitors = true
+		w.flush()
+		w.work() // creates the pod, records it
+		w.flush()
+		name := w.onlyPodName()
+		if name == "" {
+			return
+		}
+		w.adv(5)
+		w.kubelet(w.apiPod(name), 1) // the task begins running ...
+		w.adv(3)
+		w.kubeletCrashLoop(name) // ... and fails 3 s later; no pass in between
+		w.flush()
+		w.work()
+		w.flush()
+		w.adv(1000) // beyond creation + pending timeout
+		w.work()    // the pending-timeout timer: reaped
+		w.flush()
+		w.settle(4)
+		w.runTimersOut()
+		w.finalMonitors()
+		c.Nontrivial()
+	})
+
+	// Observed, not claimed (C09 / C12): the kill marker is lost when the status write fails after the
+	// delete.  handleKillJob sets DeletedStatus = Killed only in memory, deletes the pod, and the
+	// status is persisted at the end of SyncOne; that write is answered Conflict.  The retry sees the
+	// pod with a deletion timestamp and skips it (no marker); when the pod goes away the ref ends
+	// DeletedFinalStateUnknown with no Killed marker, the Job Finished/Killed.  No theorem is
+	// contradicted: C12Hist.deletion_marker_kept / marked_task_lost_is_killed are about markers that
+	// WERE persisted, and no monitor states that a task stopped by the kill sweep is recorded Killed.
+	c.RunScenario("kill-marker-lost-on-conflict", func() {
+		w := newJobctlSc(c, nil)
+		w.flush()
+		w.work() // creates the pod, records it
+		w.flush()
+		name := w.onlyPodName()
+		if name == "" {
+			return
+		}
+		w.kubelet(w.apiPod(name), 1) // running
+		w.flush()
+		w.work()
+		w.flush()
+		w.setKill(w.clk.Now().Unix())
+		w.flush()
+		w.faults = []string{"", sim.FaultConflict} // pod delete ok, status update conflicts
+		c.Emit("jc.fault -", w.state())
+		c.Emit("jc.fault "+sim.FaultConflict, w.state())
+		w.work() // kill sweep: the pod is deleted, the marker stays in memory
+		w.flush()
+		w.adv(1)
+		w.work() // the pod carries a deletion timestamp: skipped by the sweep, ref Killing, no marker
+		w.flush()
+		if p := w.apiPod(name); p != nil {
+			w.kubelet(p, 0) // the kubelet finishes terminating it
+		}
+		w.flush()
+		w.work()
+		w.flush()
+		w.settle(2)
+		w.finalMonitors()
+		if j := w.apiJob(); j != nil && len(j.Status.Tasks) == 1 {
+			r := j.Status.Tasks[0]
+			if r.Status.State == execution.TaskDeletedFinalStateUnknown && r.DeletedStatus == nil && j.Status.Phase == execution.JobKilled {
+				c.Count("jc.observed.kill-marker-lost")
+			} else {
+				c.Violate("C12", "scenario-kill-marker-shape", "expected the ref lost without marker and the Job Killed; got state %s deletedStatus %v phase %s", r.Status.State, r.DeletedStatus, j.Status.Phase)
+			}
+		}
 		c.Nontrivial()
 	})
 
